@@ -102,6 +102,23 @@ def check(c):
                           lambda: 'relative error %.3e (ranks %s, rho=%d, m=%d, cap=%s)' % (err, rk, rho, m, cap), tags + ['recover'])
                 res.nt((shape, rho, m, cap, gs, c['pat']))
             res.outcome(tuple(rk))
+        # equivalent argument forms of the sample set: other integer dtypes / lists for indices and block markers, float32-free lists for values
+        if not long_ and ok and len(c['caps']) > 0:
+            res.ev()
+            cap = c['caps'][-1]
+            with warnings.catch_warnings():
+                warnings.simplefilter('ignore')
+                Z0 = teneva.svd_incomplete(I, y, idx, idx_many, e=1e-10, r=cap)
+                okf = True
+                for If, yf, xf, mf in ((I.astype(np.int32), y, idx, idx_many), (I, y, [int(x) for x in idx], [int(x) for x in idx_many]),
+                                       (np.asfortranarray(I), np.array(y, copy=True), idx.astype(np.int32), idx_many.astype(np.int32)),
+                                       (I, y, idx, idx_many.astype(float).astype(np.int64))):
+                    try:
+                        Z1 = teneva.svd_incomplete(If, yf, xf, mf, e=1e-10, r=np.float64(cap) if cap > 1e9 else np.int64(cap))
+                        okf = okf and [G.shape for G in Z1] == [G.shape for G in Z0] and all(np.abs(a - b).max() <= 1e-10 * (1 + np.abs(b).max()) for a, b in zip(Z1, Z0))
+                    except Exception:
+                        okf = False
+            res.check(bool(okf), 'forms', dict(c, gseeds=[gs]), 'an equivalent form of the sample set / block markers / cap changes (or breaks) the result', tags)
     return res
 
 
